@@ -152,7 +152,12 @@ func (g *gen) componentAllOf() string {
 }
 
 func (g *gen) bodySchema() M {
-	switch g.r.IntN(8) {
+	switch g.r.IntN(10) {
+	case 8:
+		// a top-level primitive body
+		return cp([]M{{"type": "integer", "format": "int64"}, {"type": "number"}, {"type": "string"}, {"type": "boolean"}, {"type": "integer"}}[g.r.IntN(5)])
+	case 9:
+		return M{"type": "array", "items": M{"type": "string"}}
 	case 0:
 		return g.object(0, true)
 	case 1:
@@ -380,6 +385,10 @@ func (g *gen) operation(method string, vars []string) M {
 			p["required"] = true
 		}
 		params = append(params, p)
+	}
+	if len(params) > 1 && r.IntN(2) == 0 {
+		// the order of declaration carries no meaning: shuffle it (path parameters need not follow the template)
+		r.Shuffle(len(params), func(i, j int) { params[i], params[j] = params[j], params[i] })
 	}
 	if len(params) > 0 {
 		op["parameters"] = params
